@@ -319,6 +319,20 @@ impl Run {
         for (k, v) in &g.extra {
             cov.insert(k.clone(), v.clone());
         }
+        // distinct violation keys with their case counts (unlisted ones first), capped
+        let mut key_counts: BTreeMap<String, (u64, bool)> = BTreeMap::new();
+        for v in &g.violations {
+            let is_known = known.iter().any(|k| k.matches(&v.key));
+            key_counts.entry(v.key.clone()).or_insert((0, is_known)).0 += 1;
+        }
+        cov.insert(
+            "violation_keys".into(),
+            json!(key_counts
+                .iter()
+                .take(1500)
+                .map(|(k, (n, kn))| json!({"key": k, "cases": n, "known_finding": kn}))
+                .collect::<Vec<_>>()),
+        );
         let ev = json!({
             "property_id": self.prop,
             "tier": self.tier.name(),
@@ -361,23 +375,42 @@ impl Run {
     }
 }
 
+/// `*` matches any (possibly empty) run of characters; everything else is literal.
+pub fn glob(pattern: &str, text: &str) -> bool {
+    let parts: Vec<&str> = pattern.split('*').collect();
+    if parts.len() == 1 {
+        return pattern == text;
+    }
+    let mut rest = text;
+    for (i, part) in parts.iter().enumerate() {
+        if i == 0 {
+            match rest.strip_prefix(part) {
+                Some(r) => rest = r,
+                None => return false,
+            }
+        } else if i == parts.len() - 1 {
+            return rest.ends_with(part);
+        } else {
+            match rest.find(part) {
+                Some(pos) => rest = &rest[pos + part.len()..],
+                None => return false,
+            }
+        }
+    }
+    true
+}
+
 /// One entry of /verif/known_findings.json.
 pub struct Known {
     pub id: String,
     pub what: String,
-    /// exact key, or prefix when ending in '*'
+    /// key patterns; `*` is a wildcard
     pub patterns: Vec<String>,
 }
 
 impl Known {
     pub fn matches(&self, key: &str) -> bool {
-        self.patterns.iter().any(|p| {
-            if let Some(pre) = p.strip_suffix('*') {
-                key.starts_with(pre)
-            } else {
-                key == p
-            }
-        })
+        self.patterns.iter().any(|p| glob(p, key))
     }
 }
 
